@@ -78,7 +78,27 @@ def invariant(before, after, td, label, restoring):
     return ''
 
 
-def _case(kind, cmd, k):
+MODES = ['kill', 'sigint-before-syscall', 'sigint-after-syscall']
+_KB = {}
+
+
+def kbound(cmd):
+    """1 + the longest undisturbed run (system calls) of this command scenario over the 6 entry kinds, measured"""
+    if cmd is None:
+        return KMAX
+    if cmd not in _KB:
+        with rt.untraced():
+            n = 0
+            for kind in range(6):
+                world, step, td, sel, dest = scenario(kind, cmd)
+                m = W.build_model(world)
+                _, r0 = scen.run_model(None, [step], model=m)
+                n = max(n, r0[0]['ops'])
+            _KB[cmd] = n + 1
+    return _KB[cmd]
+
+
+def _case(kind, cmd, k, mode=0):
     with rt.untraced():
         world, step, td, sel, dest = scenario(kind, cmd)
         label = '%s:%s' % (K.KINDS[kind], CMDS[cmd])
@@ -87,16 +107,20 @@ def _case(kind, cmd, k):
         probe = m.clone()
         _, r0 = scen.run_model(None, [step], model=probe)
         n = r0[0]['ops']
-        if n >= KMAX:
+        if n >= KMAX or n >= kbound(cmd):
             return rt.fail('C15:bound-too-small', '%d system calls' % n)
         if r0[0]['exc']:
             return rt.fail('C15:uncrashed-run-traceback:' + label, r0[0]['exc'])
-        if k > n:
+        if k > n or (mode and k == n):
             rt.begin()
             return rt.ok()
-        rt.begin((K.KINDS[kind], CMDS[cmd], k, n))
-        _, r = scen.run_model(None, [step], hook=scen.CrashHook(k), model=m)
+        rt.begin((K.KINDS[kind], CMDS[cmd], k, n, MODES[mode]))
+        hook = scen.CrashHook(k) if mode == 0 else scen.InterruptHook(k, after=(mode == 2))
+        _, r = scen.run_model(None, [step], hook=hook, model=m)
         after = m.snap('/')
+        if mode:
+            label += ':' + MODES[mode]
+        # (a process that received SIGINT may well die with a traceback: that is still 'killed')
         is_restore = CMDS[cmd].startswith('restore')
         restoring = []
         if is_restore:
@@ -104,7 +128,7 @@ def _case(kind, cmd, k):
                 restoring.append((name, {'x': '/v/w/x', 'y': '/v/w/y', 'z': '/v/w/sub/z'}[name]))
         x = invariant(before, after, td, label, restoring)
         if x:
-            return x + ' [crash before syscall %d of %d: %r]' % (k, n, m.oplog[-3:])
+            return x + ' [%s, syscall %d of %d: %r]' % (MODES[mode], k, n, m.oplog[-3:])
         # recovery
         if is_restore:
             rec = C('empty', ['--trash-dir', td] if td == '/ct' else [], scen.env(), cwd='/')
@@ -125,17 +149,18 @@ def _case(kind, cmd, k):
         return rt.ok()
 
 
-def w_crash(kind: int, cmd: int, k: int) -> str:
+def w_crash(kind: int, cmd: int, k: int, mode: int) -> str:
     """
     pre: PARTITION is None or cmd == PARTITION
-    pre: 0 <= kind < 6 and 0 <= cmd < 9 and 0 <= k < 400
+    pre: 0 <= kind < 6 and 0 <= cmd < 9 and 0 <= k < kbound(PARTITION) and 0 <= mode < 3
     post: _ == ''
     """
-    return _case(rt.sel(kind, 6), rt.sel(cmd, 9), rt.sel(k, 400))
+    return _case(rt.sel(kind, 6), rt.sel(cmd, 9), rt.sel(k, kbound(PARTITION)), rt.sel(mode, 3))
 
 
 def obligations(tier):
     return [CH('W_crash_point_x_kind_x_cmd', MOD, 'w_crash', timeout=1800, partitions=list(range(9)), engine='W',
                regime='selector', encodes=K.RESTORE_FUNCS + K.EMPTY_FUNCS + K.RM_FUNCS + ['shutil.move/rmtree (CPython source over the model)'],
-               stubs=K.STUBS, bounds='crash point k in 0..399 (every run is shorter: checked) x 6 kinds x 9 commands '
+               stubs=K.STUBS + ['SIGKILL -> sticky BaseException at the k-th system call', 'SIGINT -> one KeyboardInterrupt instead of / right after the k-th system call'],
+               bounds='crash point k in 0..(longest undisturbed run of the command scenario, measured) x 3 ways of dying (fail-stop; KeyboardInterrupt before / after the k-th system call, handlers run) x 6 kinds x 9 commands '
                                      '(restore same/cross volume, two entries, --overwrite, missing parent; empty; empty DAYS; rm *, rm one)')]
